@@ -144,7 +144,26 @@ def rule_bp(ctx, rep):
         rep.check(bool(src), "C19.bp", name + ".restores-saved-mask", "restores the mask saved by before_fork", "does not restore saved_fork_signal_mask", [rs[0].where()])
 
 
+def rule_eintr(ctx, rep):
+    """a handler interrupting synchronize_rcu()/rcu_barrier() makes their futex waits return EINTR: every wait re-checks
+    its word before proceeding (shared with C02/C03/C04.waitloop)"""
+    from .. import waitloop
+    n = 0
+    for fl in ("memb", "mb", "bp"):
+        F = FL[fl]
+        m = ctx.mod(F.lib, "perfn")
+        for g in m.defined():
+            ws = waitloop.wait_sites(g)
+            if not ws or g.srcname in ("futex_async", "futex_noasync", "futex", "compat_futex_async", "compat_futex_noasync"):
+                continue
+            for k, w in enumerate(ws):
+                n += 1
+                waitloop.check(rep, "C19.eintr", "%s.%s.site%d" % (fl, g.srcname, k), g, w)
+    pat.require(n >= 6, "only %d futex waits found" % n)
+
+
 RULES = [
+    ("C19.eintr", rule_eintr),
     ("C19.safe", rule_safe),
     ("C19.once", rule_once),
     ("C19.async", rule_async),
